@@ -87,8 +87,8 @@ Print Assumptions C06_frame.
    reference instance, marker = its count) iff it is activated and has not already started its
    next instance; ended by an activator (d = true) it is not restarted; nothing emitted before
    concerns f.  (3) the main flow restarts in place.  (4) an activator ends while others remain:
-   only the count is decremented.  (5) the last activator ends: count 0, instance not running.
-   (6) an activated flow that reaches its end without ever having waited is not finished (runs
+   only the count is decremented.  (5),(6) the last activator ends: count 0, the reference instance
+   and its restarted instances are not running.  (7) an activated flow that reaches its end without ever having waited is not finished (runs
    once, stays activated).
    PARTIAL: that `activated` equals the number of running activators (incremented where StartFlow
    is processed) and that the emitted StartFlow creates the new instance are outside the focused
@@ -117,11 +117,16 @@ Theorem C06_activation_partial :
      ranked rk s -> getf s f = Some i -> is_ref_activated s i = Ok true -> i_activated i = 1%Z ->
      abort n s f true = Ok s' ->
      lv s' f = false /\ exists i', getf s' f = Some i' /\ i_activated i' = 0%Z) /\
+  (forall rk n s f s' i,
+     ranked rk s -> getf s f = Some i -> is_ref_activated s i = Ok true -> i_activated i = 1%Z ->
+     abort n s f true = Ok s' ->
+     forall c ci, In c (i_children i) -> getf s c = Some ci -> i_flow ci = i_flow i ->
+       i_parent ci = Some f -> lst s' c = false) /\
   (forall activated waiting,
      (0 < activated)%Z -> end_of_slide FStarting activated true waiting = (FStarted, true, false)).
 Proof.
   exact (conj abort_emits (conj finish_emits (conj finish_main (conj deactivate_not_last
-        (conj deactivate_last end_of_slide_activated))))).
+        (conj deactivate_last (conj deactivate_last_children end_of_slide_activated)))))).
 Qed.
 Print Assumptions C06_activation_partial.
 
